@@ -274,7 +274,7 @@ def body(case):
 
 def plan(tier):
     if tier == "quick":
-        return [{"name": "val%d" % i, "n": 70, "depth": 3} for i in range(16)]
+        return [{"name": "val%d" % i, "n": 220, "depth": 3} for i in range(16)]
     return [{"name": "val%d" % i, "n": 3500, "depth": 4} for i in range(16)]
 
 
